@@ -26,9 +26,19 @@ def run(c):
         "table.file reloads a file only when its time stamp is not older than the one loaded last and the last change is at least half a "
         "reload interval ago: the harness gives every edit a newer stamp that lies years in the past (no dependence on the clock); "
         "the file-history model covers well-formed files, an unparsable file and a missing file",
+        "the monitor's reference normalisation (vc15.RefNorm) is written from the documentation of the settings with the PRECIS / IDNA / NFC "
+        "libraries directly; for `auto` it decides plainly valid and plainly invalid addresses and leaves the rest (quoted local parts, "
+        "unusual characters) to the coarse spelling equivalence; strconv.Atoi in the action grammar is modelled on unsigned decimal tokens",
     ]
     return c.finish(
-        rule="every check instance is built through the real configuration path (block written as text with directives that have their "
+        rule="the three action directives are written in every documented form (bare reject / quarantine / ignore, reject|quarantine <code> "
+        "[<enhanced code> [<text>]] with 4xx and 5xx codes, any text; ~1% forms that are no action: Init must refuse them as the model of the "
+        "grammar says) and parsed by the real ParseActionDirective through config.Map; the monitor demands rejection / the quarantine flag by the "
+        "WORD of the directive that the documentation assigns to the refusal (unauth_action, no_match_action, err_action), whatever reply is "
+        "configured; entitlement is judged LITERALLY on the prepared form computed by an independent reference of the configured "
+        "from_normalize / auth_normalize setting (grid of 7x7 settings; fixed grid: 6 settings x spellings differing from an entry in letter case "
+        "of the local part, letter case / A-label / U-label of the domain, NFD, fullwidth; entries with capital letters); "
+        "every check instance is built through the real configuration path (block written as text with directives that have their "
         "default left out in every combination and the others in any order -> configuration parser -> config.Map -> Init), twice per case "
         "(16 times on replay), the instances must decide alike; histories of a user_to_email table kept in a file (real table.file: entries "
         "added / moved / removed, file emptied / comments only / deleted / recreated / damaged, reloads through the reload hook) with the "
